@@ -838,16 +838,28 @@ def _state_test(b):
     return op, _state_of(ret)
 
 
+def lookup_match_sites(prog):
+    """Where the receive-side lookup decides "this slot": Some(_) built in the function itself, or the
+    true-returns of a bool closure of the function (the predicate of find / position / any ...), each with the
+    calls that necessarily returned true there.  -> [(body, [calls])]"""
+    lk = prog.body("PduStorageRef::frame_index_by_first_pdu_index")
+    match_sites = [(lk, q.implied_true_calls(lk, bi)) for bi, si, s in q.aggregates(lk, "Option", "Some")]
+    for g in prog.group("PduStorageRef::frame_index_by_first_pdu_index"):
+        if g is not lk and g.is_closure and g.locals[0]["ty"] == "bool":
+            match_sites += [(g, calls) for bi, calls in q.true_return_sites(g)]
+    return match_sites
+
+
 def s8(prog, rep, P, sites, tag=""):
     """Stale index markers: the receive-side lookup must not prefer a slot that is not awaiting a
     response.  Either the lookup tests the slot state, or every path that frees a slot clears its
     marker before the slot becomes claimable."""
     lk = prog.body("PduStorageRef::frame_index_by_first_pdu_index")
-    somes = q.aggregates(lk, "Option", "Some")
+    match_sites = lookup_match_sites(prog)
+    somes = match_sites
     state_aware = bool(somes)
     marker = bool(somes)
-    for bi, si, s in somes:
-        implied = q.implied_true_calls(lk, bi)
+    for body_, implied in match_sites:
         marker = marker and any(c.is_("FrameElement::first_pdu_is") for c in implied)
         aware = False
         for c in implied:
@@ -855,15 +867,15 @@ def s8(prog, rep, P, sites, tag=""):
             if t is not None and _tests_sent(t):
                 # and it is asked about the same slot as the marker test
                 same = [x for x in implied if x.is_("FrameElement::first_pdu_is")]
-                if same and Prov(lk).of_operand(same[0].args[0]) == Prov(lk).of_operand(c.args[0]):
+                if same and Prov(body_).of_operand(same[0].args[0]) == Prov(body_).of_operand(c.args[0]):
                     aware = True
         state_aware = state_aware and aware
     rep.ob(P + ".S8", "lookup:marker-test" + tag, marker, "the lookup returns a slot only where first_pdu_is(slot, index) holds", loc=lk.span)
     if not state_aware:
         # a state test that is wider than `== Sent` protects freed slots only
         wide = []
-        for bi, si, s in somes:
-            for c in q.implied_true_calls(lk, bi):
+        for body_, implied in match_sites:
+            for c in implied:
                 t = prog.by_path.get(c.full)
                 st = _state_test(t) if t is not None else None
                 if st is not None and not _tests_sent(t):
